@@ -69,6 +69,38 @@ const E1: [ctap1::Error; 8] = [
     ctap1::Error::WrongLength,
 ];
 
+/// every status a CTAP1 handler can return: the eight above first (the history spaces use the
+/// first four), then every value the status type has for any of the 65 536 status words, then the
+/// parametrised variants with every parameter byte (also outside their documented ranges)
+fn e1() -> &'static [ctap1::Error] {
+    static ALL: std::sync::OnceLock<Vec<ctap1::Error>> = std::sync::OnceLock::new();
+    ALL.get_or_init(|| {
+        let mut v: Vec<ctap1::Error> = E1.to_vec();
+        let mut seen: std::collections::BTreeSet<String> = v.iter().map(|e| format!("{:?}", e)).collect();
+        let mut add = |e: ctap1::Error, v: &mut Vec<ctap1::Error>| {
+            if seen.insert(format!("{:?}", e)) {
+                v.push(e);
+            }
+        };
+        for w in 0..=0xffffu16 {
+            let e = ctap1::Error::from(w);
+            // unassigned words all map to one catch-all variant carrying the word: keep a few
+            if format!("{:?}", e).contains("Unknown") && !matches!(w, 0x0000 | 0x6f01 | 0x9001 | 0xffff) {
+                continue;
+            }
+            add(e, &mut v);
+        }
+        for n in 0..=255u8 {
+            add(ctap1::Error::MoreAvailable(n), &mut v);
+            add(ctap1::Error::WarningTriggering(n), &mut v);
+            add(ctap1::Error::RemainingRetries(n), &mut v);
+            add(ctap1::Error::ErrorTriggering(n), &mut v);
+            add(ctap1::Error::WrongLeField(n), &mut v);
+        }
+        v
+    })
+}
+
 /// recording mock; `fail`: None = handlers succeed with their canned value, Some(i) = error i
 pub struct Mock {
     pub log: Vec<Call>,
@@ -214,14 +246,14 @@ impl ctap1::Authenticator for Mock {
         self.log.push(Call::Register { ptr: request as *const _ as usize, arg: format!("{:?}", request) });
         match self.fail {
             None => Ok(canned_reg()),
-            Some(i) => Err(E1[i]),
+            Some(i) => Err(e1()[i]),
         }
     }
     fn authenticate(&mut self, request: &ctap1::authenticate::Request<'_>) -> ctap1::Result<ctap1::authenticate::Response> {
         self.log.push(Call::Authenticate { ptr: request as *const _ as usize, arg: format!("{:?}", request) });
         match self.fail {
             None => Ok(canned_auth()),
-            Some(i) => Err(E1[i]),
+            Some(i) => Err(e1()[i]),
         }
     }
     fn version() -> [u8; 6] {
@@ -286,8 +318,66 @@ pub fn alphabet() -> Alphabet {
     Alphabet { ctap2: c2, ctap1: c1 }
 }
 
+/// a wider request alphabet for single dispatches: every single and every pair of menu-value
+/// deviations from the full anchor of every parameter-bearing command (what the handler receives
+/// must be the request as decoded, whatever it says), and more CTAP1 shapes
+pub fn wide_alphabet() -> Alphabet {
+    let mut c2 = Vec::new();
+    for b in [0x01u8, 0x02, 0x06, 0x0a, 0x0c] {
+        let plan = Plan::new(&request_schema(command_of(b).unwrap()).unwrap(), Side::Request);
+        let full = plan.full_mask();
+        let mut devs: Vec<Vec<(usize, usize)>> = Vec::new();
+        let n = plan.leaves.len();
+        for a in 0..n {
+            for i in 1..plan.leaves[a].menu.len() {
+                devs.push(vec![(a, i)]);
+            }
+        }
+        let mut pairs = 0usize;
+        'outer: for a in 0..n {
+            for c in a + 1..n {
+                for i in 1..plan.leaves[a].menu.len() {
+                    for j in 1..plan.leaves[c].menu.len() {
+                        devs.push(vec![(a, i), (c, j)]);
+                        pairs += 1;
+                        if pairs >= 60_000 {
+                            break 'outer;
+                        }
+                    }
+                }
+            }
+        }
+        for d in devs {
+            let mut msg = vec![b];
+            msg.extend(encode(&plan.build(full, &d)));
+            if msg.len() > 7609 {
+                continue;
+            }
+            let msg = leak(msg);
+            if let Ok(r) = ctap2::Request::deserialize(msg) {
+                c2.push((format!("0x{:02x}:full{:?}", b, d), r));
+            }
+        }
+    }
+    let mut c1 = Vec::new();
+    for (k, cb) in [ctap1::ControlByte::CheckOnly, ctap1::ControlByte::EnforceUserPresenceAndSign, ctap1::ControlByte::DontEnforceUserPresenceAndSign].into_iter().enumerate() {
+        for khl in [0usize, 1, 16, 64, 128, 190, 255] {
+            for fill in [0x00u8, 0xff, 0x5a] {
+                let ch: &'static [u8; 32] = Box::leak(Box::new([fill; 32]));
+                let app: &'static [u8; 32] = Box::leak(Box::new([fill ^ 0x0f; 32]));
+                let kh = leak(vec![fill; khl]);
+                c1.push((format!("authenticate cb{} kh{} fill{:02x}", k, khl, fill), ctap1::Request::Authenticate(ctap1::authenticate::Request { control_byte: cb, challenge: ch, app_id: app, key_handle: kh })));
+                if k == 0 && khl == 0 {
+                    c1.push((format!("register fill{:02x}", fill), ctap1::Request::Register(ctap1::register::Request { challenge: ch, app_id: app })));
+                }
+            }
+        }
+    }
+    Alphabet { ctap2: c2, ctap1: c1 }
+}
+
 /// (request index: ctap2 first then ctap1, entry point 0 = call_ctapN / 1 = Rpc::call, behaviour 0 = ok / 1..=4 = error)
-pub type Step = (u16, u8, u8);
+pub type Step = (u32, u8, u16);
 
 fn expected_call(r: &ctap2::Request<'_>) -> Call {
     match r {
@@ -372,11 +462,11 @@ pub fn run_history(al: &Alphabet, h: &[Step]) -> Option<(String, String)> {
             let (want_call, want): (Option<Call>, ctap1::Result<ctap1::Response>) = match req {
                 ctap1::Request::Register(x) => (
                     Some(Call::Register { ptr: x as *const _ as usize, arg: format!("{:?}", x) }),
-                    if *beh == 0 { Ok(ctap1::Response::Register(canned_reg())) } else { Err(E1[*beh as usize - 1]) },
+                    if *beh == 0 { Ok(ctap1::Response::Register(canned_reg())) } else { Err(e1()[*beh as usize - 1]) },
                 ),
                 ctap1::Request::Authenticate(x) => (
                     Some(Call::Authenticate { ptr: x as *const _ as usize, arg: format!("{:?}", x) }),
-                    if *beh == 0 { Ok(ctap1::Response::Authenticate(canned_auth())) } else { Err(E1[*beh as usize - 1]) },
+                    if *beh == 0 { Ok(ctap1::Response::Authenticate(canned_auth())) } else { Err(e1()[*beh as usize - 1]) },
                 ),
                 ctap1::Request::Version => (None, Ok(ctap1::Response::Version(*b"U2F_V7"))),
             };
@@ -396,6 +486,7 @@ struct Dispatch {
     al: Arc<Alphabet>,
     max: usize,
     steps: Vec<Step>,
+    wide: bool,
 }
 
 // the alphabet holds leaked 'static data only
@@ -437,7 +528,7 @@ impl Space for Dispatch {
                 format!("{} via {} behaviour {}", label, if *e == 0 { "call_ctapN" } else { "Rpc::call" }, b)
             })
             .collect();
-        json!({"kind": "dispatch", "history": s.iter().map(|(r, e, b)| vec![*r as u64, *e as u64, *b as u64]).collect::<Vec<_>>(), "readable": names})
+        json!({"kind": "dispatch", "wide": self.wide, "history": s.iter().map(|(r, e, b)| vec![*r as u64, *e as u64, *b as u64]).collect::<Vec<_>>(), "readable": names})
     }
     fn nontrivial(&self, s: &Vec<Step>) -> bool {
         !s.is_empty()
@@ -445,9 +536,9 @@ impl Space for Dispatch {
 }
 
 /// behaviours 0 (success) and 1..=n_err (error index + 1); CTAP1 requests have 8 errors
-fn all_steps(al: &Alphabet, n_err2: u8, n_err1: u8) -> Vec<Step> {
+fn all_steps(al: &Alphabet, n_err2: u16, n_err1: u16) -> Vec<Step> {
     let mut v = Vec::new();
-    for r in 0..(al.ctap2.len() + al.ctap1.len()) as u16 {
+    for r in 0..(al.ctap2.len() + al.ctap1.len()) as u32 {
         let n = if (r as usize) < al.ctap2.len() { n_err2 } else { n_err1 };
         for e in 0..2u8 {
             for b in 0..=n {
@@ -493,14 +584,14 @@ pub fn run(ctx: &'static Ctx) {
     let al = Arc::new(alphabet());
     let steps = all_steps(&al, 4, 4);
     let n = steps.len() as u64;
-    let steps_all_errors = all_steps(&al, E2.len() as u8, E1.len() as u8);
+    let steps_all_errors = all_steps(&al, E2.len() as u16, e1().len() as u16);
     let max = if ctx.thorough() { 2 } else { 2 };
     // depth 2 over the whole alphabet is ~0.7 M histories; the quick tier restricts the second
     // step to one vendor code instead of all 64 (dispatch must be stateless: length 2 shows that)
     let steps_used: Vec<Step> = if true {
         steps.clone()
     } else {
-        let keep_vendor = al.ctap2.iter().position(|(l, _)| l == "vendor 0x42").unwrap() as u16;
+        let keep_vendor = al.ctap2.iter().position(|(l, _)| l == "vendor 0x42").unwrap() as u32;
         steps.iter().cloned().filter(|(r, _, _)| !al.ctap2.get(*r as usize).map_or(false, |(l, _)| l.starts_with("vendor")) || *r == keep_vendor).collect()
     };
     let k = steps_used.len() as u64;
@@ -508,12 +599,29 @@ pub fn run(ctx: &'static Ctx) {
     // all single dispatches (every vendor code)
     let al1 = al.clone();
     let n_all = steps_all_errors.len() as u64;
-    explore(ctx, Dispatch { al: al1, max: 1, steps: steps_all_errors }, Some(1 + n_all), "every request variant incl. every vendor code x both entry points x success / every named CTAP2 status (55) resp. 8 CTAP1 status words as the handler's error");
+    explore(ctx, Dispatch { al: al1, max: 1, steps: steps_all_errors, wide: false }, Some(1 + n_all), "every request variant incl. every vendor code x both entry points x success / every named CTAP2 status (55) resp. every value of the CTAP1 status type (all assigned status words, every parameter byte of the parametrised ones) as the handler's error");
+    {
+        let wide = Arc::new(wide_alphabet());
+        let ws = all_steps(&wide, 1, 1);
+        let nw = ws.len() as u64;
+        ctx.note(format!("wide alphabet: {} CTAP2 requests (single and pair deviations from the full anchors that decode), {} CTAP1 requests", wide.ctap2.len(), wide.ctap1.len()));
+        let d = Dispatch { al: wide, max: 1, steps: vec![], wide: true };
+        let (dr, wr) = (&d, &ws);
+        sweep(ctx, "single dispatches over the wide request alphabet", nw, "every single and every pair of value deviations from the full anchor of every parameter-bearing command, and 66 CTAP1 shapes, x both entry points x success / one error", move |idx, l| {
+            let h = vec![wr[idx as usize]];
+            l.nontrivial += 1;
+            l.bump("wide dispatch");
+            let v = dr.check(&h);
+            if !v.ok {
+                l.fail(ctx, idx, v, || dr.case(&h));
+            }
+        });
+    }
     let al2 = al.clone();
-    explore(ctx, Dispatch { al: al2, max, steps: steps_used }, Some(1 + k + k * k), "histories of two dispatches on one authenticator: nothing is carried over");
+    explore(ctx, Dispatch { al: al2, max, steps: steps_used, wide: false }, Some(1 + k + k * k), "histories of two dispatches on one authenticator: nothing is carried over");
     if ctx.thorough() {
         // three dispatches in a row: one vendor code, first payload of each command, success and two errors
-        let keep_vendor = al.ctap2.iter().position(|(l, _)| l == "vendor 0x42").unwrap() as u16;
+        let keep_vendor = al.ctap2.iter().position(|(l, _)| l == "vendor 0x42").unwrap() as u32;
         let s3: Vec<Step> = steps
             .iter()
             .cloned()
@@ -524,7 +632,7 @@ pub fn run(ctx: &'static Ctx) {
             .collect();
         let k3 = s3.len() as u64;
         let al3 = al.clone();
-        explore(ctx, Dispatch { al: al3, max: 3, steps: s3 }, Some(1 + k3 + k3 * k3 + k3 * k3 * k3), "histories of three dispatches over one payload per command, one vendor code, success and two errors");
+        explore(ctx, Dispatch { al: al3, max: 3, steps: s3, wide: false }, Some(1 + k3 + k3 * k3 + k3 * k3 * k3), "histories of three dispatches over one payload per command, one vendor code, success and two errors");
     }
     let nolb = (al.ctap2.len() * 2) as u64;
     let alr = &*al;
@@ -545,8 +653,10 @@ pub fn replay(case: &Value) -> Verdict {
     match case["kind"].as_str() {
         Some("no-lb") => check_no_lb(&al, case["request"].as_u64().unwrap() as usize, case["entry"].as_u64().unwrap() as u8),
         _ => {
-            let h: Vec<Step> = case["history"].as_array().unwrap().iter().map(|s| (s[0].as_u64().unwrap() as u16, s[1].as_u64().unwrap() as u8, s[2].as_u64().unwrap() as u8)).collect();
-            Dispatch { al, max: 2, steps: vec![] }.check(&h)
+            let h: Vec<Step> = case["history"].as_array().unwrap().iter().map(|s| (s[0].as_u64().unwrap() as u32, s[1].as_u64().unwrap() as u8, s[2].as_u64().unwrap() as u16)).collect();
+            let wide = case["wide"].as_bool().unwrap_or(false);
+            let al = if wide { Arc::new(wide_alphabet()) } else { al };
+            Dispatch { al, max: 2, steps: vec![], wide }.check(&h)
         }
     }
 }
